@@ -262,7 +262,7 @@ def search(pid, records, repo, scratch, seeds=4000, steps=80, tags=None):
     return {'found': False, 'tried': tried, 'counterexamples_for_other_properties': other[:2]}
 
 
-def rerun(pid, fi, repo):
+def rerun(pid, fi, repo, path=None):
     """re-run the recorded failing input against the real code of `repo`"""
     import tempfile
     import shutil
@@ -276,7 +276,8 @@ def rerun(pid, fi, repo):
         p = drv(root, cmd.split()[1:], timeout=900)
         print(p.stdout.strip()[-800:])
         if p.returncode != 0:
-            print('VIOLATION property=%s replay=(re-run of the recorded exploration reproduces the failing input)' % pid)
+            print('the re-run of the recorded exploration reproduces a failing input on %s' % repo)
+            print('VIOLATION property=%s replay=%s' % (pid, path or '(recorded input)'))
             return 1
         print('the recorded input no longer fails on %s' % repo)
         return 0
